@@ -537,6 +537,10 @@ pub struct Parts {
 
 /// A structurally valid but unrelated v1 block (the reader must not look at it).
 fn decoy_block(seed: u64) -> RawBlock {
+    if seed % 5 == 1 {
+        // what `zic -b slim` writes: the smallest legal 32-bit block (one type, one NUL, nothing else)
+        return RawBlock { typecnt: 1, charcnt: 1, ttinfo: vec![0, 0, 0, 0, 0, 0], chars: vec![0], ..Default::default() };
+    }
     let mut r = crate::prng::Rng::new(seed);
     let typecnt = 1 + r.below(5) as u32;
     let timecnt = r.below(9) as u32;
